@@ -662,6 +662,22 @@ def p_r7_every_match_fed(p: Project, rep: Report):
     if not loops:
         rep.note("P-R7 undecided: feed() has no loop over the pattern's matches")
         return
+    # what is tokenized is the text feed() was given: the iterated scan runs over the parameter itself, not over a
+    # rewritten copy (a clean-up pass over the raw text cannot tell mark-up from element data)
+    dparam = params_of(fd0)[1] if len(params_of(fd0)) > 1 else None
+    if dparam is not None:
+        rew = None
+        for st_ in ast.walk(fd):
+            tg_ = st_.targets if isinstance(st_, ast.Assign) else ([st_.target] if isinstance(st_, (ast.AugAssign, ast.AnnAssign)) else [])
+            if any(isinstance(t_, ast.Name) and t_.id == dparam for t_ in tg_):
+                rew = st_
+        for lp_ in loops:
+            for c_ in ast.walk(lp_.iter):
+                if isinstance(c_, ast.Call) and isinstance(c_.func, ast.Attribute) and c_.func.attr in ("finditer", "findall", "scanner") and c_.args and not (isinstance(c_.args[0], ast.Name) and c_.args[0].id == dparam):
+                    v_ = Expander(fd).x(c_.args[0])
+                    if not (isinstance(v_, ast.Name) and v_.id == dparam):
+                        rew = rew or c_
+        rep.check("P-R7", "feed:tokenizes-the-text-it-was-given", rew is None, f"`{text(rew)[:60] if rew is not None else ''}`: the text is rewritten before it is tokenized - a pass over the raw text cannot tell what is mark-up and what is element data, so values (or the boundaries between elements) change" if rew is not None else "", ploc(p, rew if rew is not None else fd0))
     for lp in loops:
         exits = []
 
@@ -785,7 +801,7 @@ def p_r10_no_invented_end(p: Project, rep: Report):
         return
     cfg = pths.cfg
     enders = {nd.id for nd in cfg.nodes if nd.stmt is not None and nd.kind not in ("join", "handlers") and any(text(c.func) == "self.end" for c in nd.calls())}
-    bad = None
+    bad = bad2 = None
     for q in pths:
         if q.outcome not in ("return", "fall"):
             continue
@@ -795,11 +811,27 @@ def p_r10_no_invented_end(p: Project, rep: Report):
         n += 1
         cb = q.conds_before(hit[0]) or []
         tested = False
+        slash_atoms = set()
         for c, _w in cb:
             for a in c.atoms():
-                if "'/'" in a or '"/"' in a or any(re.search(rf"\b{re.escape(x)}\b", a) for x in params[1:]):
+                if "'/'" in a or '"/"' in a:
+                    slash_atoms.add(a)
+                    tested = True
+                if any(re.search(rf"\b{re.escape(x)}\b", a) for x in params[1:]):
                     tested = True
         if not tested:
             bad = PT.simple_conds(q.conds)
+            continue
+        # ... and the test has to ESTABLISH it: the conditions on the way imply `end tag, or data, or captured close
+        # tag` - `closetag or <something the builder remembers>` lets an element be ended that the input left open
+        goal = PT.any_of(*([PT.atom(f"bool({x})") for x in params[1:3]] + [PT.atom(a) for a in sorted(slash_atoms)]))
+        known = {a for c, _w in cb for a in c.atoms()}
+        if goal.atoms() & known and PT.implies(cb, goal) is False:
+            extra = sorted(a for a in known if a not in goal.atoms() and not a.startswith("raises("))
+            bad2 = (PT.simple_conds(q.conds), extra)
+    if bad is None and bad2 is not None:
+        rep.check("P-R10", "_feedmatch:end-only-for-end-tag-or-data", False, f"a path of _feedmatch ends an element although the match is neither an end tag nor carries data or a close tag; it depends on {bad2[1][:3]} instead (taken when {bad2[0]}): an element the input left open is closed because of something else the builder remembers", ploc(p, fm0))
+        rep.floor("P-R10", n, 2, "end() sites")
+        return
     rep.check("P-R10", "_feedmatch:end-only-for-end-tag-or-data", bad is None, f"a path of _feedmatch ends an element without having tested the match for an end tag, data or a close tag (taken when {bad})" if bad is not None else "", ploc(p, fm0))
     rep.floor("P-R10", n, 2, "end() sites")
